@@ -20,6 +20,15 @@ CLAIMED = {
  "C08": dict(text="Algebraic laws of the conditional algebra proved over an arbitrary field for all shapes; the Coq model (Model/Gauss.v) of apply/marginalise/merge/revert/preconditioner_apply is compared with the three implementations on random rational conditionals with power-of-two scalings (exact model values).",
              note=TB + "Square roots are represented by Gram matrices; QR is an oracle (Gram identity).",
              tech="machine-checked proof in Coq (algebraic laws over an abstract field) + model-vs-implementation correspondence in exact rational arithmetic"),
+ "C04": dict(text="Calibration formulas (running RMS of whitened residuals, dynamic per-step scale, MLE finalisation with the 1/sqrt(N) correction, per-dimension scales) are part of the Coq solver model and are compared step by step with the implementation in exact arithmetic; the running-RMS invariant is proved by induction over the number of steps; scale-equivariance is checked metamorphically (implementation vs implementation, fixed and adaptive runs).",
+             note=TB + "Equivariance under base-scale changes is established by correspondence/metamorphic runs, the general theorem is partial.",
+             tech="machine-checked proof in Coq (induction over steps) + one-step correspondence in exact rational arithmetic + metamorphic scaling runs"),
+ "C07": dict(text="The error estimators (residual / state standard deviation, both norms, per-unit-step, derivative index) are modelled in Coq on squared quantities; for every step of implementation trajectories the implementation's error_power is compared through power^(-2(q+1)) with the model's rational norm^2.",
+             note=TB + "The real power x^(-1/(q+1)) is not modelled: squares / (q+1)-th powers are compared.",
+             tech="machine-checked proof in Coq + model-vs-implementation correspondence in exact rational arithmetic"),
+ "C18": dict(text="Both step-size helpers modelled over Q; positivity proved for all inputs (dt0_adaptive: unconditional; dt0: positive denominator), refinement to the Hairer-Norsett-Wanner II.4 algorithm proved, differences from the book variant proved; correspondence on logged norm/where/min-max calls incl. zero, tiny, huge and badly scaled inputs, then an adaptive solve from the proposal.",
+             note=TB + "Float overflow/underflow is outside the rational model and covered by the harness only (known findings F8-F11).",
+             tech="machine-checked proof in Coq (order reasoning over Q, refinement to the HNW spec) + model-vs-implementation correspondence"),
  "C17": dict(text="Combinatorial identity over all sign vectors proved for every N; estimators averaged over all probes equal the exact blocks for any Jacobian tensor and any sizes; validator reflection; correspondence with rademacher patched to enumerate all probes.",
              note=TB + "jvp/vjp modelled as the exact linear maps of the Jacobian (JAX AD trusted, checked by correspondence).",
              tech="machine-checked proof in Coq (induction over sign vectors) + model-vs-implementation correspondence under full probe enumeration"),
